@@ -370,7 +370,7 @@ func RunHistoryB(dir string, c Cfg, id string, next func() (Call, bool), wantTre
 				blocks = cb
 			}
 		}
-		st.Env = EnvLine(items)
+		st.Env = EnvLine(items, e.Cfg.PlainHeader)
 		st.Obs = append(st.Obs, res)
 		if !s.Wedged {
 			rows, err := e.RowLines()
@@ -378,7 +378,7 @@ func RunHistoryB(dir string, c Cfg, id string, next func() (Call, bool), wantTre
 				return nil, err
 			}
 			st.Obs = append(st.Obs, rows...)
-			st.Obs = append(st.Obs, ItemLines(items, nil)...)
+			st.Obs = append(st.Obs, ItemLines(items, e.Cfg.PlainHeader)...)
 			st.Obs = append(st.Obs, e.RootLine(), fmt.Sprintf("blocks\t%d", blocks))
 			prevBlocks = blocks
 			if wantTree {
